@@ -46,6 +46,9 @@ def origin_flow(spec: NetSpec, o, val, T, out: RefOut):
         vlim = min(vc, v1)
         out.branches.add(("main.vlim", "ctrl" if vc < v1 else "first"))
         Vc = Veq(l.rho_crit, l.v_free, l.rho_crit, l.a)
+        if vlim < 0:  # outside the admissible domain: the law is not defined, nothing is compared
+            out.skip[(k, "w", 0)] = "inadmissible-negative-speed"
+            out.skip[(f"L{li}", "rho", 0)] = "inadmissible-negative-speed"
         if vlim < Vc:
             ratio = vlim / l.v_free
             if 0 < ratio < GUARD:
